@@ -841,6 +841,33 @@ def bytelen(W, ev, t, depth=0):
         return len(t[1])
     if k == "str":
         return len(t[1].encode())
+    if k == "field" and depth < 6:
+        # a field declared as a byte array: `public_key: [u8; 32]` is 32 bytes whatever was stored
+        import re as _re
+        def owner_of(base, d=0):
+            if not isinstance(base, tuple) or not base or d > 4:
+                return None
+            if base[0] == "param" and base[1] in W.prog.fns:
+                f0 = W.prog.fns[base[1]]
+                ty0 = f0.locals[base[2]]["ty"].replace("&mut ", "").replace("&", "").strip() if base[2] < len(f0.locals) else ""
+                return ty0 if ty0 in W.prog.adts else (f0.impl_self if base[2] == 1 else None)
+            if base[0] == "field":
+                o2 = owner_of(base[1], d + 1)
+                a2 = W.prog.adts.get(o2) if o2 else None
+                if a2 and a2.get("variants"):
+                    for fl2 in a2["variants"][0]["fields"]:
+                        if fl2["name"] == base[2]:
+                            ty2 = fl2["ty"].replace("&mut ", "").replace("&", "").strip()
+                            return ty2 if ty2 in W.prog.adts else None
+            return None
+        owner = owner_of(t[1])
+        a0 = W.prog.adts.get(owner) if owner else None
+        if a0 and a0.get("variants"):
+            for fl in a0["variants"][0]["fields"]:
+                if fl["name"] == t[2]:
+                    m0 = _re.fullmatch(r"\[u8; (\d+)\]", fl["ty"].strip())
+                    if m0:
+                        return int(m0.group(1))
     if k == "repeat":
         n = t[2]
         return n if isinstance(n, int) else None
